@@ -1,10 +1,11 @@
 #!/bin/bash
 # development helper: run seeded changes against a scratch copy of /verif and a scratch worktree of /repo
-# usage: seedbg.sh <seed-id>... ; results in /tmp/vs/seeded/<id>/meta.json and on stdout
+# usage: [VS=/tmp/vs SR=/tmp/seedrepo SEED_PROPS=C01,C02] seedbg.sh <seed-id>... ; results in $VS/seeded/<id>/meta.json and on stdout
 set -e
-rsync -a --delete --exclude .git --exclude replays /verif/ /tmp/vs/
-if [ ! -d /tmp/seedrepo ]; then git -C /repo worktree add --detach /tmp/seedrepo HEAD >/dev/null; fi
-git -C /tmp/seedrepo checkout -q --detach $(git -C /repo rev-parse HEAD); git -C /tmp/seedrepo checkout -- .
-export VERIF_REPO=/tmp/seedrepo SEED_REPO=/tmp/seedrepo
-cd /tmp/vs
-for s in "$@"; do python3 tools/seedtest.py run $s ${SEED_ARGS} 2>&1 | tail -3; done
+VS=${VS:-/tmp/vs}; SR=${SR:-/tmp/seedrepo}
+rsync -a --delete --exclude .git --exclude replays /verif/ $VS/
+if [ ! -d $SR ]; then git -C /repo worktree add --detach $SR HEAD >/dev/null; fi
+git -C $SR checkout -q --detach $(git -C /repo rev-parse HEAD); git -C $SR checkout -- .
+export VERIF_REPO=$SR SEED_REPO=$SR
+cd $VS
+for s in "$@"; do python3 tools/seedtest.py run $s ${SEED_PROPS:+--props $SEED_PROPS} ${SEED_ARGS} 2>&1 | tail -${SEED_TAIL:-3}; done
